@@ -384,10 +384,18 @@ func (e *Eng) loopHeader(fr *Frame, h *ssa.BasicBlock, phis []*ssa.Phi, cur *Sta
 }
 
 func isIncrementOf(v ssa.Value, p *ssa.Phi) bool {
-	for depth := 0; depth < 4; depth++ {
+	return isIncrementOfRec(v, p, map[ssa.Value]bool{}, 0)
+}
+
+func isIncrementOfRec(v ssa.Value, p *ssa.Phi, seen map[ssa.Value]bool, depth int) bool {
+	for ; depth < 8; depth++ {
 		if v == ssa.Value(p) {
 			return true
 		}
+		if seen[v] {
+			return false
+		}
+		seen[v] = true
 		switch x := v.(type) {
 		case *ssa.BinOp:
 			if x.Op != token.ADD {
@@ -401,7 +409,7 @@ func isIncrementOf(v ssa.Value, p *ssa.Phi) bool {
 		case *ssa.Phi:
 			// inner merge: all edges must be increments
 			for _, ed := range x.Edges {
-				if !isIncrementOf(ed, p) {
+				if !isIncrementOfRec(ed, p, seen, depth+1) {
 					return false
 				}
 			}
